@@ -741,7 +741,7 @@ pub fn plans_for(prop: &str, thorough: bool) -> Vec<Plan> {
                     v
                 },
                 cfgs: cross(false, |b| vec![b, Cfg { le: 1, it: 1, iw: 2, ..b }]),
-                widths: Widths::Classes,
+                widths: Widths::All,
                 ranges: Ranges::None,
                 oracles: o,
                 u_cap: 400,
